@@ -82,3 +82,14 @@ impl BitField {
     { unimplemented!() }
 }
 } // verus!
+verus! {
+impl BitField {
+    /// BitField::union(iter of &BitField) = fold with `|` from the empty field: the union of all of them (the units pass `&vec` for `vec.iter()`)
+    #[verifier::external_body]
+    pub fn union(v: &Vec<BitField>) -> (r: BitField) ensures bf_union_is(v@, r@) { unimplemented!() }
+}
+/// `s` is the union of the sets of `v`
+pub open spec fn bf_union_is(v: Seq<BitField>, s: Set<u64>) -> bool {
+    forall|b: u64| s.contains(b) <==> exists|i: int| 0 <= i < v.len() && (#[trigger] v[i])@.contains(b)
+}
+} // verus!
